@@ -377,6 +377,35 @@ func checkC04(c *Ctx, r *Report) {
 	}
 	r.fn(alloc)
 	c.checkAllocatorErrorDiscipline(r, alloc)
+	// the collision probe asks about THIS client: "never collides with a predefined topic ID visible to that client"
+	allInstrs(alloc, func(i ssa.Instruction) {
+		call, ok := i.(*ssa.Call)
+		if !ok || calleeName(&call.Call) != "("+pkTopics+".PredefinedTopics).GetTopicName" || len(call.Call.Args) < 3 {
+			return
+		}
+		os := c.origins(call.Call.Args[1])
+		okc := len(os) == 1 && (os[0].Kind == "param" || os[0].Kind == "freevar") && len(os[0].Path) >= 1
+		if okc {
+			fld := os[0].Path[len(os[0].Path)-1]
+			isID := false
+			for _, f := range c.repoFuncs("gateway") {
+				allInstrs(f, func(j ssa.Instruction) {
+					if st, ok := j.(*ssa.Store); ok {
+						if fa, ok := st.Addr.(*ssa.FieldAddr); ok && fieldName(fa.X.Type(), fa.Field) == fld && c.valueIsField(st.Val, pkPackets1, "Connect", "ClientID") {
+							isID = true
+						}
+					}
+				})
+			}
+			okc = isID
+		}
+		var ds []string
+		for _, o := range os {
+			ds = append(ds, o.String())
+		}
+		r.cond(okc, "R3", fnKey(alloc)+":collision-probe-identity", c.instrPos(i), "the allocator probes the predefined topics of the session's own client ID (the field assigned from CONNECT.ClientID)",
+			"the allocator's collision probe does not ask for the session's own client ID ("+strings.Join(ds, "; ")+"): an ID predefined for this client only (or shadowed for it) can be handed out for another topic name")
+	})
 	// R1: constants
 	n1 := 0
 	for _, f := range c.repoFuncs("gateway") {
